@@ -174,6 +174,8 @@ def replay(vectors, name, tables, groups="G1,G2", profiles="5", build="release",
 
 
 def _replay_one(vectors, name, tables, groups="G1,G2", profiles="5", build="release", feature="blst", timeout=3000):
+    if os.environ.get("VERIF_TIER_NOW") == "thorough":
+        timeout = max(timeout, 14000)
     os.makedirs(WORK, exist_ok=True)
     vp = os.path.join(WORK, name + ".vectors.ndjson")
     op = os.path.join(WORK, name + ".replay.json")
